@@ -53,6 +53,7 @@ func multiByte(s string) bool { return len(s) != utf8.RuneCountInString(s) }
 type runner struct {
 	c         *core.Ctx
 	nEvents   int
+	nRandom   int // batches of the random family; batches after these walk the metrics matrix
 	mu        sync.Mutex
 	confirmed map[string]int
 	sigs      map[string]int // every refuting observation by signature (listed or not)
@@ -69,13 +70,20 @@ func (r *runner) violation(sig, what string, witness any) {
 
 func (r *runner) genBatch(b int) []*testCase {
 	rng := rand.New(rand.NewSource(r.c.SubSeed("batch", b)))
+	// own stream for the metric / applied-mark shaping: the masks, events and
+	// field lists of a batch do not depend on it
+	aux := rand.New(rand.NewSource(r.c.SubSeed("metrics", b)))
 	var cases []*testCase
 	for i := 0; i < casesPerBatch; i++ {
 		class := "benign"
 		if rng.Intn(100) < 30 {
 			class = "hostile"
 		}
-		cases = append(cases, genCase(rng, b*casesPerBatch+i, class, r.nEvents))
+		var shape *metricsShape
+		if b >= r.nRandom { // metrics matrix family: every cell in turn
+			shape = &metricsMatrix[((b-r.nRandom)*casesPerBatch+i)%len(metricsMatrix)]
+		}
+		cases = append(cases, genCase(rng, b*casesPerBatch+i, class, r.nEvents, aux, shape))
 	}
 	return cases
 }
@@ -303,6 +311,50 @@ func (r *runner) evidence(tc *testCase, ck *checker, ex *eventExpect, l *childLi
 	if len(l.Metrics) > 0 {
 		c.Count("events_with_metric_delta", 1)
 	}
+	// metrics matrix: which cell this (conforming) event belongs to and what was
+	// seen of its counters
+	shape := shapeOf(cfg)
+	maskMoved, maskQuiet := false, false
+	for i := range cfg.Masks {
+		if cfg.Masks[i].MetricName == "" {
+			continue
+		}
+		moved := false
+		for k := range l.Metrics {
+			if strings.HasPrefix(k, cfg.Masks[i].MetricName+"{") {
+				moved = true
+			}
+		}
+		if moved {
+			maskMoved = true
+			c.Count("mask_counter_moved_checked", 1)
+			if len(cfg.Masks[i].MetricLabels) > 0 {
+				c.Count("mask_counter_moved_with_label_checked", 1)
+			}
+			if shape.Plugin == "off" {
+				c.Count("mask_counter_moved_while_plugin_metric_off", 1)
+			}
+		} else {
+			maskQuiet = true
+			if ex.Any {
+				c.Count("mask_counter_quiet_while_another_mask_applied", 1)
+			}
+		}
+	}
+	if ex.Any {
+		c.Count("metrics_cell_applied|"+shape.String(), 1)
+		switch shape.Plugin {
+		case "off":
+			c.Count("events_applied_plugin_metric_off", 1)
+		case "custom":
+			c.Count("events_applied_plugin_metric_custom", 1)
+		default:
+			c.Count("events_applied_plugin_metric_default", 1)
+		}
+	} else {
+		c.Count("metrics_cell_not_applied|"+shape.String(), 1)
+	}
+	c.Nontrivial(fmt.Sprintf("metrics|%s|any=%v|mask_moved=%v|mask_quiet=%v", shape, ex.Any, maskMoved, maskQuiet))
 	for _, le := range ex.Leaves {
 		c.Count("leaves", 1)
 		if le.Kind == kNum {
@@ -430,22 +482,31 @@ func main() {
 		return
 	}
 	core.Main("C17", "exploration", func(c *core.Ctx) {
-		c.SetRule("per case: 1-3 generated masks (regexp AST generator: literals incl. multi-byte and metacharacters, classes, groups nested/alternated/optional/repeated/empty; group lists: ascending subsets, [0], 0 among others, any subset in any order; modes mask/max_count/replace_word/cut_values; match_rules; global and per-mask process/ignore lists over nested objects/arrays; applied fields, metrics, metric labels) decoded through pipeline.GetConfig and run by the real plugin in a real pipeline; per case N generated events (nested objects/arrays, strings planted with samples of the masks' expressions so matches touch value ends, numbers, empty/long values, escapes) sent one by one through the same plugin instance. Non-trivial = a (mask, leaf) pair where the regexp matched, or field lists/match rules decided; fingerprint = generator class | mode | selection shape | #matches | #ranges | multi-byte | touches start/end | empty range | leaf kind | governing list kind | rewritten | #groups | mask position | length bucket")
+		c.SetRule("per case: 1-3 generated masks (regexp AST generator: literals incl. multi-byte and metacharacters, classes, groups nested/alternated/optional/repeated/empty; group lists: ascending subsets, [0], 0 among others, any subset in any order; modes mask/max_count/replace_word/cut_values; match_rules; global and per-mask process/ignore lists over nested objects/arrays; applied fields, metrics, metric labels; applied_metric_name absent / custom / explicit empty string, plus a directed family walking every cell of applied_metric_name x per-mask metric_name (none / plain / with metric_labels) x mask_applied_field) decoded through pipeline.GetConfig and run by the real plugin in a real pipeline; per case N generated events (nested objects/arrays, strings planted with samples of the masks' expressions so matches touch value ends, numbers, empty/long values, escapes) sent one by one through the same plugin instance. Non-trivial = a (mask, leaf) pair where the regexp matched, or field lists/match rules decided; fingerprint = generator class | mode | selection shape | #matches | #ranges | multi-byte | touches start/end | empty range | leaf kind | governing list kind | rewritten | #groups | mask position | length bucket")
 		c.Assume("Go regexp.FindAllSubmatchIndex is trusted for group ranges (the oracle judges the rewrite, not the regexp engine)")
 		c.Assume("encoding/json is trusted to parse the documents produced by the pipeline")
 		c.Assume("documentation leaves open: match_rules on original vs rewritten value; empty values processed or not; counters per event or per value; a number whose text is unchanged/remains numeric may stay a number or become a string - every reading is accepted")
 		nCases := c.N(5184, 90000)
 		r := &runner{c: c, nEvents: c.N(12, 16), confirmed: map[string]int{}, sigs: map[string]int{}}
-		nBatches := nCases / casesPerBatch
+		r.nRandom = nCases / casesPerBatch
+		// metrics matrix family: 18 cells x 8 (quick) / x 64 (thorough) cases
+		nMatrix := c.N(144, 1152)
+		nBatches := r.nRandom + nMatrix/casesPerBatch
 		core.ParallelFor(nBatches, 24, r.runBatch)
 
 		c.Extra("refuting_observations_by_signature", r.sigs)
-		c.Extra("cases", nCases)
+		c.Extra("cases", nCases+nMatrix)
+		c.Extra("cases_metrics_matrix", nMatrix)
 		c.Extra("events_per_case", r.nEvents)
 		// a run that did not observe the behaviours it is about decides nothing
 		need := []string{"events_with_a_match", "events_without_match", "leaves_rewritten", "pair_mode_mask_unlimited", "pair_mode_mask_max_count",
 			"pair_mode_replace_word", "pair_mode_cut", "pair_not_selected_by_field_lists", "pair_match_rules_reject", "pair_selected_text_multibyte",
-			"pair_selection_touches_value_end", "events_with_applied_mark_checked", "events_with_metric_delta", "leaves_number_rewritten", "pair_rules_only_applied"}
+			"pair_selection_touches_value_end", "events_with_applied_mark_checked", "events_with_metric_delta", "leaves_number_rewritten", "pair_rules_only_applied",
+			"mask_counter_moved_checked", "mask_counter_moved_with_label_checked", "mask_counter_moved_while_plugin_metric_off",
+			"mask_counter_quiet_while_another_mask_applied", "events_applied_plugin_metric_off", "events_applied_plugin_metric_custom", "events_applied_plugin_metric_default"}
+		for _, cell := range metricsMatrix { // every cell of the metrics matrix, with and without a match
+			need = append(need, "metrics_cell_applied|"+cell.String(), "metrics_cell_not_applied|"+cell.String())
+		}
 		for _, n := range need {
 			if c.Counter(n) == 0 {
 				c.Fatal("behaviour class %q was never observed", n)
